@@ -558,6 +558,7 @@ class Node:
                 self.logger.warning(f"{conn} socket not yet ready, waiting")
             else:
                 conn.state = PEER_CONNECTED
+                conn.reset_lifetime()
                 self.logger.info(f"{conn} socket is now connected")
 
             conn.host_ip_address = [peer_socket.getsockname()[0]]
@@ -587,6 +588,7 @@ class Node:
                 self.logger.warning(f"{conn} socket not yet ready, waiting")
             else:
                 conn.state = PEER_CONNECTED
+                conn.reset_lifetime()
                 self.logger.info(f"{conn} socket is now connected")
 
             conn.host_ip_address = [peer_socket.getsockname()[0]]
@@ -606,6 +608,8 @@ class Node:
 
     def _flag_peer_as_connected(self, conn: PeerConnection):
         conn.state = PEER_CONNECTED
+        # the CEA timeout counts from here, not from when dialling started
+        conn.reset_lifetime()
         peer = self._find_connection_peer(conn)
         if peer:
             peer.last_connect = int(time.time())
